@@ -11,49 +11,65 @@
 (* Conforming code copies the datagram out of the read buffer before it starts the goroutine; the     *)
 (* named deviation Alias ("payload is a sub-slice of the read buffer") reads the buffer at forward    *)
 (* time and sets the ghost flag `dev` when what it reads is no longer the datagram's payload.          *)
+(* Reply direction and the control-channel DNS route: a datagram for port 53 is, when a DNS query       *)
+(* handler is installed, not tunnelled but handed to that handler (the resolver address is substituted  *)
+(* for the virtual DNS address); every response - from a tunnel or from the handler - is wrapped in a     *)
+(* UDP request header again and sent to the application, and that header must carry the destination       *)
+(* the application addressed (the parsed header re-encoded).  Named deviation ReplySubst: the reply is     *)
+(* headed by the address the query was sent to.                                                            *)
 (* Behaviours: every sequence of K datagrams over header class (IPv4 10 / domain / IPv6 22 octets)     *)
 (* x payload size class (S, L), optionally a malformed datagram in between, optionally two datagrams   *)
 (* for the same destination, x the number r of datagrams received before the first forward is let go.  *)
 EXTENDS Naturals, Sequences, FiniteSets, TLC, Json
 
-CONSTANTS Emit, MaxK, Alias
+CONSTANTS Emit, MaxK, Alias, ReplySubst
 
 HdrLen(a) == CASE a = 1 -> 10 [] a = 3 -> 12 [] a = 4 -> 22      \* domain: representative 5+5+2
 PayLen(p) == IF p = "S" THEN 2 ELSE 5
-Dg == [atyp : {1, 3, 4}, pay : {"S", "L"}]
+\* route: "tunnel" any port but 53; "dns" port 53 at an ordinary address; "vdns" port 53 at the virtual DNS address
+Dg == [atyp : {1, 3, 4}, pay : {"S", "L"}, route : {"tunnel"}]
+DgDns == [atyp : {1, 3, 4}, pay : {"S"}, route : {"tunnel", "dns"}] \cup {[atyp |-> 1, pay |-> "S", route |-> "vdns"]}
 Shapes == UNION {[1..k -> Dg] : k \in 2..MaxK}
-Cases == {[dgs |-> s, bad |-> b, same |-> sm, r |-> r] :
+DnsShapes == {s \in [1..2 -> DgDns] : \E i \in 1..2 : s[i].route # "tunnel"}
+\* hdl: a DNS query handler is installed (the client always installs one; a bare relay has none)
+Cases == {[dgs |-> s, bad |-> b, same |-> sm, r |-> r, hdl |-> FALSE] :
             s \in Shapes, b \in {"none", "frag", "short"}, sm \in BOOLEAN, r \in 1..MaxK}
+    \cup {[dgs |-> s, bad |-> "none", same |-> FALSE, r |-> 2, hdl |-> h] : s \in DnsShapes, h \in BOOLEAN}
 Valid(cs) == /\ cs.r <= Len(cs.dgs)
              /\ cs.same => (Len(cs.dgs) = 2 /\ cs.dgs[1].atyp = cs.dgs[2].atyp /\ cs.bad = "none")
              /\ cs.bad # "none" => cs.r >= 2       \* the malformed one travels between datagram 1 and 2
+             /\ (~cs.hdl /\ \E i \in DOMAIN cs.dgs : cs.dgs[i].route # "tunnel") => cs.dgs[1].route # "tunnel"
 
 VARIABLES cs,       \* the case
           nrecv,    \* valid datagrams received so far
           badSeen,  \* the malformed datagram (if any) has been received and dropped
           buf,      \* the read buffer: sequence of abstract octets
           pending,  \* set of [i, off, len, copy]: forwards not yet performed
-          fwd,      \* set of [i, dest, payload] forwarded
-          open,     \* the first tunnel has been created (forwards may proceed)
+          fwd,      \* set of [i, via, dest, payload] handed on: via "tunnel" (dest = session) or "dns" (dest = server asked)
+          replies,  \* set of [i, hdr]: response datagrams sent back to the application, hdr = address in their header
+          open,     \* the first tunnel has been created / the first query answered (forwards may proceed)
           dev
-vars == <<cs, nrecv, badSeen, buf, pending, fwd, open, dev>>
+vars == <<cs, nrecv, badSeen, buf, pending, fwd, replies, open, dev>>
 
 K == Len(cs.dgs)
 N(i) == HdrLen(cs.dgs[i].atyp) + PayLen(cs.dgs[i].pay)
 Octets(i) == [j \in 1..N(i) |-> <<i, j>>]
 Payload(i) == [j \in 1..PayLen(cs.dgs[i].pay) |-> <<i, HdrLen(cs.dgs[i].atyp) + j>>]
 Dest(i) == IF cs.same THEN 1 ELSE i
+ViaDns(i) == cs.hdl /\ cs.dgs[i].route # "tunnel"
+Asked(i) == IF cs.dgs[i].route = "vdns" THEN 0 ELSE Dest(i)     \* where the query really goes (0 = the resolver behind the virtual address)
 Overwrite(b, o) == [j \in 1..(IF Len(b) > Len(o) THEN Len(b) ELSE Len(o)) |-> IF j <= Len(o) THEN o[j] ELSE b[j]]
 
 Init == /\ cs \in {x \in Cases : Valid(x)}
-        /\ nrecv = 0 /\ badSeen = FALSE /\ buf = <<>> /\ pending = {} /\ fwd = {} /\ open = FALSE /\ dev = FALSE
+        /\ nrecv = 0 /\ badSeen = FALSE /\ buf = <<>> /\ pending = {} /\ fwd = {} /\ replies = {}
+        /\ open = FALSE /\ dev = FALSE
 
 BadDue == cs.bad # "none" /\ ~badSeen /\ nrecv = 1
 \* readLoop: the malformed datagram lands in the read buffer too, and is dropped
 RecvBad == /\ BadDue
            /\ buf' = Overwrite(buf, [j \in 1..(IF cs.bad = "short" THEN 6 ELSE 12) |-> <<0, j>>])
            /\ badSeen' = TRUE
-           /\ UNCHANGED <<cs, nrecv, pending, fwd, open, dev>>
+           /\ UNCHANGED <<cs, nrecv, pending, fwd, replies, open, dev>>
 \* readLoop: next valid datagram; at most r of them before the first forward is let go
 Recv == /\ nrecv < K /\ ~BadDue
         /\ (nrecv < cs.r \/ open)
@@ -62,31 +78,44 @@ Recv == /\ nrecv < K /\ ~BadDue
            /\ pending' = pending \cup {[i |-> i, off |-> HdrLen(cs.dgs[i].atyp), len |-> PayLen(cs.dgs[i].pay),
                                         copy |-> Payload(i)]}
            /\ nrecv' = i
-        /\ UNCHANGED <<cs, badSeen, fwd, open, dev>>
+        /\ UNCHANGED <<cs, badSeen, fwd, replies, open, dev>>
 \* the tunnel for the first datagram's destination is ready once r datagrams have arrived
 Open == /\ ~open /\ nrecv >= cs.r /\ ~BadDue
         /\ open' = TRUE
-        /\ UNCHANGED <<cs, nrecv, badSeen, buf, pending, fwd, dev>>
+        /\ UNCHANGED <<cs, nrecv, badSeen, buf, pending, fwd, replies, dev>>
+\* handlePacket: tunnel route -> session.SendPacket; DNS route -> handler.QueryDNS and, at once, the reply datagram
 Forward(p) == /\ open /\ p \in pending
-              /\ LET pl == IF Alias THEN [j \in 1..p.len |-> buf[p.off + j]] ELSE p.copy IN
-                 /\ fwd' = fwd \cup {[i |-> p.i, dest |-> Dest(p.i), payload |-> pl]}
-                 /\ dev' = (dev \/ pl # p.copy)
+              /\ LET pl == IF Alias THEN [j \in 1..p.len |-> buf[p.off + j]] ELSE p.copy
+                     hdr == IF ReplySubst THEN Asked(p.i) ELSE Dest(p.i)
+                 IN
+                 /\ fwd' = fwd \cup {[i |-> p.i, via |-> IF ViaDns(p.i) THEN "dns" ELSE "tunnel",
+                                       dest |-> IF ViaDns(p.i) THEN Asked(p.i) ELSE Dest(p.i), payload |-> pl]}
+                 /\ replies' = IF ViaDns(p.i) THEN replies \cup {[i |-> p.i, hdr |-> hdr]} ELSE replies
+                 /\ dev' = (dev \/ pl # p.copy \/ (ViaDns(p.i) /\ hdr # Dest(p.i)))
               /\ pending' = pending \ {p}
               /\ UNCHANGED <<cs, nrecv, badSeen, buf, open>>
+\* session.receiveLoop: a response arrives from the tunnel of an already forwarded datagram
+TunnelReply(f) == /\ f \in fwd /\ f.via = "tunnel" /\ ~\E x \in replies : x.i = f.i
+                  /\ replies' = replies \cup {[i |-> f.i, hdr |-> f.dest]}
+                  /\ UNCHANGED <<cs, nrecv, badSeen, buf, pending, fwd, open, dev>>
 
-Finished == nrecv = K /\ pending = {} /\ open
-BehOf == [kind |-> "relay", dgs |-> cs.dgs, bad |-> cs.bad, same |-> cs.same, r |-> cs.r]
+Finished == nrecv = K /\ pending = {} /\ open /\ {x.i : x \in replies} = 1..K
+BehOf == [kind |-> "relay", dgs |-> cs.dgs, bad |-> cs.bad, same |-> cs.same, r |-> cs.r, hdl |-> cs.hdl]
 Done == /\ Finished /\ (IF Emit THEN PrintT("BEH " \o ToJson(BehOf)) ELSE TRUE) /\ UNCHANGED vars
-Next == RecvBad \/ Recv \/ Open \/ (\E p \in pending : Forward(p)) \/ Done
+Next == RecvBad \/ Recv \/ Open \/ (\E p \in pending : Forward(p)) \/ (\E f \in fwd : TunnelReply(f)) \/ Done
 Spec == Init /\ [][Next]_vars
 
 \* ---- the property at this level ----------------------------------------------------------------
-\* what was forwarded for datagram i is (its destination, the octets that followed its header)
-Intact == \A f \in fwd : f.dest = Dest(f.i) /\ f.payload = Payload(f.i)
-Faithful == Intact \/ dev
-\* at the end every valid datagram has been forwarded exactly once, the malformed one never
+\* what was handed on for datagram i is the octets that followed its header, for its destination (a query for
+\* the virtual DNS address goes to the resolver that stands behind it)
+Intact == \A f \in fwd : f.payload = Payload(f.i) /\ f.dest = (IF f.via = "dns" THEN Asked(f.i) ELSE Dest(f.i))
+\* the header of a response datagram is the re-encoded header of the datagram it answers
+ReplyIntact == \A x \in replies : x.hdr = Dest(x.i)
+Faithful == (Intact /\ ReplyIntact) \/ dev
+\* at the end every valid datagram has been handed on exactly once, the malformed one never
 Complete == Finished => /\ Cardinality(fwd) = K
                         /\ {f.i : f \in fwd} = 1..K
+                        /\ Cardinality(replies) = K
 NoDev == ~dev
 TypeOK == nrecv \in 0..K /\ open \in BOOLEAN /\ Cardinality(pending) <= K
 =============================================================================
